@@ -9,7 +9,8 @@
 From Coq Require Import ZArith.
 Open Scope Z_scope.
 
-(* Go `int` is I64: file.d is built for 64-bit targets (checked by the harness: strconv.IntSize) *)
+(* Go `int` is I64 and `uint` is U64: file.d is built for 64-bit targets (checked by the harness:
+   strconv.IntSize). The narrow types are there for conversions such as int32(uint16(v)). *)
 Inductive ity := I8 | I16 | I32 | I64 | U8 | U16 | U32 | U64.
 
 Definition ity_bits (t : ity) : Z :=
